@@ -18,7 +18,8 @@ import (
 )
 
 // N34 of DESIGN.md
-var n34 = []string{"x", "index", "..", ".", "a/b", "../y", "../../z", "a.b", "x.svg", "layers", "/abs", `C:\w`, " ", "é"}
+// (backslash is an ordinary file-name character on Linux: `..\y` must stay one file name inside the location)
+var n34 = []string{"x", "index", "..", ".", "a/b", "../y", "../../z", "a.b", "x.svg", "layers", "/abs", `C:\w`, " ", "é", `..\y`, `..\..\z`, `a\b`}
 
 // the sub-alphabet used where the full product would not fit the tier
 var n34small = []string{"x", "index", "..", "../y"}
